@@ -12,6 +12,9 @@
 
    kernel_d1 / kernel_d2 = what torch.autograd returns for rho'(x), rho''(x) on the branch forward
    selects (at the Huber threshold: the "otherwise" branch, as `mask = sqrt(x) < delta` is false).
+   (In float64 autograd forms Tolerant's rho'' as a difference of two terms of size rho'/|b|; for
+   a/|b| >~ 37 and x < a the result is rounding noise of either sign although kernel_d2 < 0 - the tie
+   therefore feeds the correctors' model with the g1, g2 the implementation itself computed.)
    kernel_d2_graph k = false when rho' has no autograd dependence on x (Scale: y = delta * x), in
    which case Triggs.compute_grads' second `grad(g1.sum(), x)` raises RuntimeError.
 
